@@ -22,6 +22,8 @@ func checkC15(c *Ctx, r *Report) {
 	r.floor("R15.4", 1)
 	r.floor("R15.5", 2)
 	c15Factory(c, r)
+	r.floor("R15.6", 1)
+	classifierPrefixOnly(c, r, "R15.6")
 	// the per-packet step is the function of package server that calls the stream classifier
 	cls := c.fnMust("packet", "LooksLikeModbusTCP")
 	var step *ssa.Function
@@ -275,6 +277,8 @@ func c15Loop(c *Ctx, r *Report, rr, step *ssa.Function) {
 	rep(okExit && handled != nil, "the loop is left only when the step reports nothing (more) to handle or asks to close", "", "loop-exit", c.pos(call.Pos()))
 	// order: response = append(response(carried), resp...)
 	okOrder := false
+	var accPhi *ssa.Phi
+	var accAppend *ssa.Call
 	for _, b := range rr.Blocks {
 		for _, in := range b.Instrs {
 			cl, ok := in.(*ssa.Call)
@@ -294,12 +298,47 @@ func c15Loop(c *Ctx, r *Report, rr, step *ssa.Function) {
 				for _, e := range ph.Edges {
 					if e == cl {
 						okOrder = true
+						accPhi, accAppend = ph, cl
 					}
 				}
 			}
 		}
 	}
 	rep(okOrder, "each reply is appended after the replies produced earlier in the same read (order preserved)", "", "reply-order", c.pos(call.Pos()))
+	// what is handed back is the accumulated replies: every return inside the loop returns the
+	// accumulator, and a return taken after this iteration's step produced a reply (close path)
+	// returns the accumulator including that reply
+	if okOrder {
+		for _, b := range rr.Blocks {
+			ret, ok := b.Instrs[len(b.Instrs)-1].(*ssa.Return)
+			if !ok || !call.Block().Dominates(b) || len(ret.Results) == 0 {
+				continue
+			}
+			v := ret.Results[0]
+			pos := c.pos(ret.Pos())
+			switch {
+			case v == ssa.Value(accAppend):
+				rep(true, "returns the accumulated replies including the one just produced", "", "", pos)
+			case v == ssa.Value(accPhi):
+				// allowed only where this iteration produced nothing: the branch on 'handled' (false edge)
+				viaNotHandled := false
+				for _, p := range b.Preds {
+					if iff, ok := p.Instrs[len(p.Instrs)-1].(*ssa.If); ok {
+						cond, neg := iff.Cond, false
+						if u, ok := cond.(*ssa.UnOp); ok && u.Op == token.NOT {
+							cond, neg = u.X, true
+						}
+						if cond == handled && ((p.Succs[1] == b) != neg) {
+							viaNotHandled = true
+						}
+					}
+				}
+				rep(viaNotHandled, "returns the replies accumulated so far when the step had nothing to handle", "", "drops-last-reply", pos)
+			default:
+				rep(false, "a return of the loop hands back something other than the accumulated replies: replies produced earlier in the same read are lost", v.String(), "returns-not-accumulator", pos)
+			}
+		}
+	}
 }
 
 func c15Conn(c *Ctx, r *Report, h *ssa.Function) {
@@ -495,4 +534,81 @@ func blockReaches(from, to *ssa.BasicBlock) bool {
 		return false
 	}
 	return walk(from)
+}
+
+// classifierPrefixOnly: the stream classifier is handed everything buffered so far, which may
+// contain further (pipelined) requests: for 8 or more bytes its verdict must be a function of
+// the first 8 bytes only. Two returns with different verdicts whose path conditions, with every
+// condition on len(data) removed, can hold together mean the verdict depends on how many bytes
+// happen to be buffered.
+func classifierPrefixOnly(c *Ctx, r *Report, rule string) {
+	cls := c.fnMust("packet", "LooksLikeModbusTCP")
+	id := fnID(cls)
+	r.funcs[id] = true
+	r.instance(rule, 1)
+	an, fr := analyse(c, cls)
+	_ = an
+	data, ok := fr.vals[cls.Params[0]].(ASlice)
+	if !ok || len(data.ln.terms) != 1 {
+		r.undecided(rule, id, "classifier input is not a plain byte slice parameter", c.pos(cls.Pos()))
+		return
+	}
+	lenSym := data.ln.terms[0].s
+	strip := func(cj Conj) Conj {
+		var out Conj
+		for _, a := range cj {
+			if a.a.coef(lenSym) == 0 {
+				out = append(out, a)
+			}
+		}
+		return out
+	}
+	type site struct {
+		class string
+		pos   string
+		conjs []Conj
+	}
+	var sites []site
+	for _, rs := range fr.returns {
+		var cs []Conj
+		for _, cj := range rs.state {
+			if infeasible(cj.with(atomGE(data.ln, affConst(8)))) {
+				continue // the 'too short' region
+			}
+			cs = append(cs, strip(cj))
+		}
+		if len(cs) == 0 {
+			continue
+		}
+		class := describeAV(rs.vals[1])
+		if n, ok := rs.vals[0].(AInt); ok {
+			class += "|" + n.a.String()
+		}
+		sites = append(sites, site{class, c.pos(rs.instr.Pos()), cs})
+	}
+	bad := ""
+	pairs := 0
+	for i := range sites {
+		for j := i + 1; j < len(sites); j++ {
+			if sites[i].class == sites[j].class {
+				continue
+			}
+			pairs++
+			for _, a := range sites[i].conjs {
+				for _, b := range sites[j].conjs {
+					if !infeasible(a.with(b...)) {
+						bad = fmt.Sprintf("the returns at %s and %s give different verdicts for the same first 8 bytes, depending on len(data)", sites[i].pos, sites[j].pos)
+					}
+				}
+			}
+		}
+	}
+	if bad == "" && pairs > 0 {
+		r.ok(rule, id, fmt.Sprintf("for 8 or more buffered bytes the verdict depends on the header bytes only (%d return pairs with different verdicts are separated by byte conditions alone)", pairs), c.pos(cls.Pos()), true)
+	} else {
+		if bad == "" {
+			bad = "fewer than two distinct verdicts found"
+		}
+		r.fail(rule, id, "the classifier's verdict depends on how many bytes are buffered beyond the header (early next requests change the answer)", c.pos(cls.Pos()), bad, "verdict-depends-on-length")
+	}
 }
